@@ -3,22 +3,25 @@
 HEAD, the demonstration files, the agent's notes and meta.json."""
 import json, os, re, shutil, subprocess, sys, tempfile
 
-DESCR = json.load(open('/verif/tools/seed_descr.json'))
+SRCROOT = sys.argv[1] if len(sys.argv) > 1 else '/tmp/wt/out'
+TAG = sys.argv[2] if len(sys.argv) > 2 else ''
+DESCR = json.load(open(sys.argv[3] if len(sys.argv) > 3 else '/verif/tools/seed_descr.json'))
+RESULTS = sys.argv[4] if len(sys.argv) > 4 else '/tmp/seed_results.txt'
 results = {}
-for line in open('/tmp/seed_results.txt'):
+for line in open(RESULTS):
     parts = line.split()
-    if len(parts) >= 6 and parts[1] in ('m1', 'm2'):
+    if len(parts) >= 6 and parts[1] in ('m1', 'm2', 'm3'):
         results[(parts[0], parts[1])] = line.strip()
 
 def run(cmd, cwd=None):
     return subprocess.run(cmd, shell=True, cwd=cwd, capture_output=True, text=True)
 
 for prop in sorted(DESCR):
-    for m in ('m1', 'm2'):
-        src = '/tmp/wt/out/%s' % prop
+    for m in ('m1', 'm2', 'm3'):
+        src = '%s/%s' % (SRCROOT, prop)
         if not os.path.exists('%s/%s.diff' % (src, m)):
             continue
-        out = '/verif/seeded/%s-%s' % (prop, m)
+        out = '/verif/seeded/%s-%s%s' % (prop, TAG, m)
         shutil.rmtree(out, ignore_errors=True)
         os.makedirs(out)
         wt = tempfile.mkdtemp(prefix='mkseed.'); os.rmdir(wt)
@@ -31,17 +34,19 @@ for prop in sorted(DESCR):
         run('git -C /repo worktree remove --force %s' % wt)
         assert diff.strip(), (prop, m)
         # demo files: this mutation's files and shared data files
-        other = 'm2' if m == 'm1' else 'm1'
+        others = [x for x in ('m1', 'm2', 'm3') if x != m]
         os.makedirs(out + '/demo')
         for f in sorted(os.listdir(src)):
             p = os.path.join(src, f)
-            if f.endswith('.diff') or f in ('notes.md', 'verify.log') or f.startswith(other + '_') or f.startswith(other + '.'):
+            if f.endswith('.diff') or f in ('notes.md', 'verify.log', 'verify.sh') or any(f.startswith(o + '_') or f.startswith(o + '.') for o in others):
                 continue
             if os.path.isdir(p):
                 shutil.copytree(p, out + '/demo/' + f)
             else:
                 shutil.copy(p, out + '/demo/' + f)
         shutil.copy(src + '/notes.md', out + '/agent_notes.md')
+        if m not in DESCR[prop]:
+            continue
         d = DESCR[prop][m]
         pkgdir = '.'
         for f in os.listdir(out + '/demo'):
